@@ -210,6 +210,20 @@ func HarnessC09Purity() {
 	vfAssert(vfSameProgram(p1, progBefore), "c09.run-does-not-modify-the-program")
 	vfAssert(vfSameEnvData(env, envBefore), "c09.run-does-not-modify-the-environment")
 	out2, e2 := Run(p1, runEnv2)
+	// and again on one long-lived VM value (the documented reuse mode), under a small budget
+	if budget := vfParamInt("budget"); budget > 0 {
+		saved := vm.MemoryBudget
+		vm.MemoryBudget = budget
+		machine := &vm.VM{}
+		fo, fe := (&vm.VM{}).Run(p1, runEnv)
+		o3, e3 := machine.Run(p1, runEnv)
+		o4, e4 := machine.Run(p1, runEnv2)
+		vm.MemoryBudget = saved
+		vfAssert((e3 == nil) == (fe == nil) && (e4 == nil) == (fe == nil), "c09.rerun-on-equal-environment-same-outcome")
+		if e3 == nil && e4 == nil && fe == nil {
+			vfAssert(vfSameRerun(o3, fo) && vfSameRerun(o4, fo), "c09.rerun-on-equal-environment-equal-result")
+		}
+	}
 	vfAssert((e1 == nil) == (e2 == nil), "c09.rerun-on-equal-environment-same-outcome")
 	if e1 == nil && e2 == nil {
 		vfAssert(vfSameRerun(out1, out2), "c09.rerun-on-equal-environment-equal-result")
